@@ -2,6 +2,7 @@ package main
 
 import (
 	"fmt"
+	"math/rand"
 	"reflect"
 	"strings"
 	"sync/atomic"
@@ -36,6 +37,21 @@ type keyedSession struct {
 	nextKid  int
 	model    reflect.Value
 	streamOf map[int]*item // stream index -> item
+	// spellFn (rows whose collections have an id interceptor): a random spelling of an id that names the same item
+	spellFn func(r *rand.Rand, key string) string
+}
+
+// spell: how this request names the item. On rows with an id interceptor every request spells the id afresh.
+func (k *keyedSession) spell(it *item) string {
+	if k.spellFn == nil {
+		return it.key
+	}
+	k.session.mon.Count("keyed-spelling")
+	sp := k.spellFn(k.session.r, it.key)
+	if sp != it.key {
+		k.session.mon.Count("keyed-spelling-differs")
+	}
+	return sp
 }
 
 func (k *keyedSession) setKey(m protoreflect.Message, field, key string) {
@@ -138,9 +154,10 @@ func (k *keyedSession) get(it *item, mask *fieldmaskpb.FieldMask) {
 	s := k.session
 	req := newMsg(k.t.get.Input())
 	setStr(req, "name", devName)
-	setStr(req, k.t.keyField, it.key)
+	sp := k.spell(it)
+	setStr(req, k.t.keyField, sp)
 	setMask(req, "read_mask", mask)
-	op := fmt.Sprintf("Get%s(%s=%q read_mask=%v)", k.t.X, k.t.keyField, it.key, paths(mask))
+	op := fmt.Sprintf("Get%s(%s=%q read_mask=%v)", k.t.X, k.t.keyField, sp, paths(mask))
 	reportProgress(progress{Sid: s.sid, Step: s.step, Op: op, Trace: tailTrace(s.trace, 12)})
 	out, pm := s.call("Get"+k.t.X, req.Interface())
 	if pm != "" {
@@ -189,7 +206,7 @@ func (k *keyedSession) update(it *item) {
 // register as it is when the outcome is judged.
 func (k *keyedSession) prepUpdate(it *item) (proto.Message, proto.Message, string) {
 	s := k.session
-	p := k.payload(it.key)
+	p := k.payload(k.spell(it))
 	req := proto.Clone(s.randomExtras()).ProtoReflect()
 	setStr(req, "name", devName)
 	req.Set(payloadField(k.t.update.Input(), k.t.resource), protoreflect.ValueOfMessage(p.ProtoReflect()))
@@ -503,8 +520,9 @@ func (k *keyedSession) pull(it *item) {
 	mask := s.randMask(k.t.resource, 50, true)
 	uo := s.r.Intn(3) == 0
 	s.cur = it.cur
+	sp := k.spell(it)
 	s.keyedOpen = func(req protoreflect.Message) string {
-		setStr(req, k.t.keyField, it.key)
+		setStr(req, k.t.keyField, sp)
 		return fmt.Sprintf("kopen %d", it.kid)
 	}
 	before := len(s.streams)
@@ -528,12 +546,13 @@ func (k *keyedSession) delete(it *item) { k.finishDelete(it, k.callDelete(it)) }
 // callDelete deletes the item with the service's Delete RPC, else with the model's Delete method.
 func (k *keyedSession) callDelete(it *item) delRes {
 	s := k.session
-	op := fmt.Sprintf("Delete%s(%s=%q)", k.t.X, k.t.keyField, it.key)
+	sp := k.spell(it)
+	op := fmt.Sprintf("Delete%s(%s=%q)", k.t.X, k.t.keyField, sp)
 	reportProgress(progress{Sid: s.sid, Step: s.step, Op: op, Trace: tailTrace(s.trace, 12)})
 	if k.t.del != nil {
 		req := newMsg(k.t.del.Input())
 		setStr(req, "name", devName)
-		setStr(req, k.t.keyField, it.key)
+		setStr(req, k.t.keyField, sp)
 		out, pm := s.call("Delete"+k.t.X, req.Interface())
 		if pm != "" {
 			return delRes{op: op, pm: pm}
@@ -548,7 +567,7 @@ func (k *keyedSession) callDelete(it *item) delRes {
 		return delRes{op: op}
 	}
 	var outs []reflect.Value
-	if p, _ := lib.Catch(func() { outs = m.Call([]reflect.Value{reflect.ValueOf(it.key)}) }); p {
+	if p, _ := lib.Catch(func() { outs = m.Call([]reflect.Value{reflect.ValueOf(sp)}) }); p {
 		return delRes{op: op}
 	}
 	for _, o := range outs {
@@ -675,6 +694,7 @@ func runKeyedSession(t triple, sid sessionID, mon *lib.Monitor) (lines, verdicts
 	ghost := &item{key: "no-such-item", kid: k.nextKid}
 	s.step = -1
 	extra := rowExtras[t.Row.rowKey()]
+	k.spellFn = extra.Spell
 	if extra.Initial != nil {
 		// the model starts with records: each is a register holding the configured value
 		for _, m := range extra.Initial() {
